@@ -222,14 +222,7 @@ func (b *Base) NewEnv(init Action) (*Env, error) {
 		e.Addr[u] = addrs[i]
 		e.Name[addrs[i].String()] = u
 	}
-	e.Pool = authtypes.NewModuleAddress(distrtypes.ModuleName)
-	e.Name[e.Pool.String()] = "pool"
-	e.Gov = authtypes.NewModuleAddress(govtypes.ModuleName).String()
-	for i := 0; i < e.NA; i++ {
-		e.Name[frtypes.SellingReserveAddress(uint64(i)).String()] = fmt.Sprintf("sell.%d", i)
-		e.Name[frtypes.PayingReserveAddress(uint64(i)).String()] = fmt.Sprintf("pay.%d", i)
-		e.Name[frtypes.VestingReserveAddress(uint64(i)).String()] = fmt.Sprintf("vest.%d", i)
-	}
+	e.fillNames()
 	// parameters
 	if init.Params != nil {
 		p := frtypes.Params{AuctionCreationFee: feeCoins(init.Params.CreateFee), PlaceBidFee: feeCoins(init.Params.BidFee),
@@ -272,6 +265,18 @@ func feeCoins(f FeeJ) sdk.Coins {
 		return sdk.Coins{}
 	}
 	return sdk.NewCoins(sdk.NewCoin(GoDenom(f.D), sdkmath.NewInt(f.N)))
+}
+
+// fillNames registers the pool, the authority and the escrow accounts of auction ids 0..NA-1.
+func (e *Env) fillNames() {
+	e.Pool = authtypes.NewModuleAddress(distrtypes.ModuleName)
+	e.Name[e.Pool.String()] = "pool"
+	e.Gov = authtypes.NewModuleAddress(govtypes.ModuleName).String()
+	for i := 0; i < e.NA; i++ {
+		e.Name[frtypes.SellingReserveAddress(uint64(i)).String()] = fmt.Sprintf("sell.%d", i)
+		e.Name[frtypes.PayingReserveAddress(uint64(i)).String()] = fmt.Sprintf("pay.%d", i)
+		e.Name[frtypes.VestingReserveAddress(uint64(i)).String()] = fmt.Sprintf("vest.%d", i)
+	}
 }
 
 // AddrStr returns the bech32 string for a model user; unknown names give an invalid address.
